@@ -113,4 +113,24 @@ func init() {
 		fmt.Println("runs", len(ps))
 		return 0
 	}
+	// vh chunk-cancel -n 200 -out outcomes.json: cancellation runs (Pipeline.tla with Cancel = TRUE)
+	commands["chunk-cancel"] = func(args []string) int {
+		fs := flag.NewFlagSet("chunk-cancel", flag.ExitOnError)
+		n := fs.Int("n", 200, "runs per configuration")
+		out := fs.String("out", "", "outcomes JSON")
+		_ = fs.Parse(args)
+		var all []chunkx.CancelOutcome
+		for _, buffers := range []int{0, 1, 2, 1000} {
+			for _, stop := range []bool{true, false} {
+				for i := 0; i < *n; i++ {
+					all = append(all, chunkx.CancelRun(buffers, 1+i%3, stop, i%5, 6))
+				}
+			}
+		}
+		if err := chunkx.WriteJSON(*out, all); err != nil {
+			fmt.Fprintln(os.Stderr, err)
+			return 2
+		}
+		return 0
+	}
 }
